@@ -24,10 +24,15 @@ RULE = ('random histories of 4-30 operations over a store of 4-6 sparse objects 
         'an object with a non-zero entry; distinct = distinct case hash')
 ASSUMPTIONS = ['float rounding, nan, inf and -0.0 are not modelled: inputs are dyadic, values compared to 1e-9 relative, branch decisions exact',
                'indices are non-negative; negative indices and negative slice bounds/steps are outside the model',
-               'every row of a SparseArray has the same size (rows are only created by the library from rectangular input)']
+               'every row of a SparseArray has the same size and dtype (rows are only created by the library from rectangular input)',
+               'results are compared with NumPy up to leading axes of length 1 (reduce_ndim drops them by design) and up to bool/float dtype (True = 1.0)',
+               'theorems are about the source with pending_fixes/C09_1..C09_7 applied (model flag lg = false); the kernels of the unrepaired source are kept (lg = true, C09_LEGACY=1) and their defects are stated as C09_legacy_* theorems',
+               'refinement theorems cover + - * fully and / where NumPy returns; the statements refuted in Props.v (0/0, in-place resize, unchecked shapes/indices, read-only arrays) are known findings',
+               'the history-refinement theorem covers the float-vector fragment (fop); the invariant, frame and rejection theorems cover every modelled operation']
 TRUSTED = ['model coq/C09/Model.v is hand-written from thermosteam/base/sparse.py; tie = correspondence check on every run',
-           'dense reference semantics coq/C09/Dense.v is hand-written from NumPy broadcasting/error rules; tie = the same histories run with NumPy',
-           'Python dict iteration-with-mutation rule (RuntimeError) as transcribed in isub_self']
+           'dense reference semantics coq/C09/Dense.v is hand-written from NumPy broadcasting/error rules; tie = the same operations run with NumPy on the dense images of the real operands and compared with np_step',
+           'Python semantics transcribed by hand: dict iteration with resizing raises RuntimeError, zip() truncation, list slicing clips, truthiness of 0.0, lazy iteration of a vector assigned to itself',
+           'harness abstraction of real objects to cells (sorted keys, keys outside the size reported as unrepresentable, aliasing via id())']
 
 _env = {}
 def env():
@@ -978,3 +983,19 @@ WITNESSES = [
     {'key': 'C09:values:aset::a',
      'case': {'objs': [['a', [[0.0, 0.0]]]], 'ops': [['aset', 0, ['row', ['m', [True]]], ['l', [5.0, 7.0]], {'raw': True}]]}},
 ]
+
+def search_cases(rng, tier):
+    return [gen_history(rng) for _ in range(150 if tier == 'quick' else 1500)]
+
+def shrink(case):
+    """drop operations while the oracle keeps failing with the same key"""
+    msg = oracle(case)
+    if not msg: return case
+    key = finding_key(case, msg)
+    ops = list(case['ops']); i = 0
+    while i < len(ops):
+        trial = dict(case, ops=ops[:i] + ops[i + 1:])
+        m = oracle(trial)
+        if m and finding_key(trial, m) == key: ops = trial['ops']
+        else: i += 1
+    return dict(case, ops=ops)
